@@ -25,7 +25,7 @@ RULE = ('seeded histories of 2-6 index builds; status maps from (i) generated OI
         'distinct = distinct (history shape, fault kinds, digit-prefix pattern present, overlap pattern); non-trivial = >=2 builds or a fault')
 ASSUMPTIONS = ['read faults on the old index are injected only as a probe, not judged (the statement does not quantify over them)']
 
-DIGITS = [1, 2, 4, 10, 11, 48, 100, 480, 4800]
+DIGITS = [0, 1, 2, 4, 10, 11, 48, 100, 480, 4800]
 
 
 
@@ -154,10 +154,11 @@ def generate(rng, tier):
     u = rng.random()
     if u < 0.12 and not scn.get('persistent') and not any(b_.get('kind') == 'mibdump' for b_ in builds):
         # the first build of the history finds an index left by earlier runs; in a few worlds a very large one
-        scn['inherited'] = {'pad': rng.choice([10500000, 17000000]) if u < 0.012 else rng.choice([0, 0, 100, 70000])}
-        if u < 0.012:
+        scn['inherited'] = {'pad': 10500000 if u < 0.004 else rng.choice([0, 0, 100, 70000])}
+        if u < 0.004:
             scn.pop('rate', None)
-            del builds[2:]
+            scn.pop('faults', None)
+            del builds[1:]
     return scn
 
 
